@@ -152,6 +152,10 @@ class BuiltinsMixin:
             return m
         if isinstance(o, FuncV) and name == "__name__":
             return o.name
+        if isinstance(o, (FuncV, Builtin)) and name in ("__name__", "__qualname__"):
+            return o.name
+        if isinstance(o, Builtin) and name == "__doc__":
+            return None
         if o is None or type(o) in (int, float, bool, str, bytes, tuple):
             self.raise_py("AttributeError", f"{type(o).__name__!r} object has no attribute {name!r}")
         raise Unsupported(f"attribute {name!r} of {o!r}")
@@ -422,8 +426,16 @@ class BuiltinsMixin:
                 return self.or_(*[self.eq(x, y) for y in c.fields["items"]])
             if c.tag == "range":
                 a = c.fields["args"]
+                if pyclass_kind(x) not in ("int", "bool"):
+                    if pyclass_kind(x) in ("str", "bytes", "none"):
+                        return False
+                    raise Unsupported("`in range(...)` on a non-integer")
                 if len(a) == 1:
                     return self.and_(self.compare(ast.LtE(), 0, x), self.compare(ast.Lt(), x, a[0]))
+                if len(a) == 2 or (len(a) == 3 and type(a[2]) is int and a[2] == 1):
+                    return self.and_(self.compare(ast.LtE(), a[0], x), self.compare(ast.Lt(), x, a[1]))
+                if len(a) == 3 and all(type(v_) is int for v_ in a):
+                    return self.or_(*[self.eq(x, v_) for v_ in range(*a)])
             f, _ = c.cls.lookup("__contains__")
             if f is not None:
                 return self.truth(self.call(self.bind(f, c), [x], {}))
